@@ -241,3 +241,21 @@ func (s *SMP) Step5(m []*big.Int) (match bool, err error) {
 	}
 	return expP(m[0], s.a3).Cmp(s.papb) == 0, nil
 }
+
+// G2G3 exposes the shared generators computed so far (for building re-sealed deviant messages).
+func (s *SMP) G2G3() (*big.Int, *big.Int) { return s.g2, s.g3 }
+
+// Reseal2 rewrites message 2 so that Pb = 1 and Qb = qb (which may be 0 or p) carry a proof that verifies:
+// with Pb = 1 the first proof component no longer depends on cP, and with Qb = 0 mod p the second is 0.
+func (s *SMP) Reseal2(m []*big.Int, qb *big.Int, d5, d6 *big.Int) []*big.Int {
+	out := append([]*big.Int{}, m...)
+	out[6], out[7] = big.NewInt(1), qb
+	l := expP(s.g3, d5)
+	r := new(big.Int)
+	if new(big.Int).Mod(qb, P).Sign() != 0 {
+		return out
+	}
+	out[8] = hashInt(5, l, r)
+	out[9], out[10] = d5, d6
+	return out
+}
